@@ -4,6 +4,7 @@ import (
 	"bytes"
 	"context"
 	"fmt"
+	"runtime/debug"
 	"sort"
 	"testing"
 
@@ -20,11 +21,23 @@ import (
 
 // PStr is a string given by length and pattern seed (arbitrary, mostly non-UTF-8 bytes).
 type PStr struct {
-	L int  `json:"l"`
-	S byte `json:"s,omitempty"`
+	L   int    `json:"l"`
+	S   byte   `json:"s,omitempty"`
+	Lit string `json:"lit,omitempty"` // a literal text instead of the pattern (vocabulary of the package under test)
 }
 
-func (p PStr) String() string { return string(patternBytes(p.S, p.L)) }
+func (p PStr) String() string {
+	if p.Lit != "" {
+		return p.Lit
+	}
+	return string(patternBytes(p.S, p.L))
+}
+
+// tthValueVocabulary: values and keys the ttheader package itself names (frame types, string keys), plus
+// a few conventional ones.
+var tthValueVocabulary = []string{ttheader.FrameTypeMeta, ttheader.FrameTypeHeader, ttheader.FrameTypeData, ttheader.FrameTypeTrailer, "0", "5", "thrift", "grpc", "ttheader", "true"}
+var tthKeyVocabulary = []string{ttheader.HeaderIDLServiceName, ttheader.HeaderTransRemoteAddr, ttheader.HeaderTransToCluster, ttheader.HeaderTransToIDC, ttheader.HeaderTransPerfTConnStart,
+	ttheader.HeaderTransPerfTConnEnd, ttheader.HeaderTransPerfTSendStart, ttheader.HeaderTransPerfTRecvStart, ttheader.HeaderTransPerfTRecvEnd, ttheader.HeaderConnectionReadyToReset, ttheader.HeaderProcessAtTime}
 
 func eqStrMap(a, b map[string]string) bool {
 	if len(a) != len(b) {
@@ -147,7 +160,7 @@ func checkTTHRoundTrip(c TTHCase, cv *cov) (v *evid.Violation) {
 	if c.Frames < 1 {
 		c.Frames = 1
 	}
-	if c.Frames > 3 || c.Payload < 0 || c.Payload > 200000 {
+	if c.Frames > 3 || c.Payload < 0 || c.Payload > 1<<26 {
 		return nil
 	}
 	if !ref.SupportedProto(c.Proto) {
@@ -441,9 +454,14 @@ func minInt(a, b int) int {
 func init() { register("c06_tth_roundtrip", checkTTHRoundTrip) }
 
 func genPStr(t *rapid.T, label string, big bool) PStr {
-	k := rapid.IntRange(0, 19).Draw(t, label+"k")
+	k := rapid.IntRange(0, 22).Draw(t, label+"k")
 	var l int
 	switch {
+	case k >= 20:
+		if label == "sk" {
+			return PStr{Lit: rapid.SampledFrom(tthKeyVocabulary).Draw(t, label+"voc")}
+		}
+		return PStr{Lit: rapid.SampledFrom(tthValueVocabulary).Draw(t, label+"voc")}
 	case k < 3:
 		l = 0
 	case k < 14:
@@ -556,6 +574,121 @@ func TestC06_Exhaustive(t *testing.T) {
 		}
 	}, rec)
 	rec.Sample(TTHCase{Flags: 2, Seq: 7, Steer: 65536, Payload: 10, Frames: 2, Writer: 2, Reader: 1})
+	rec.SetExhaustive()
+}
+
+// TestC06_HugePayload: frames whose payload is 4..32 MiB, written behind the header through the same writer.
+func TestC06_HugePayload(t *testing.T) {
+	rec := evid.New("C06", "c06_huge_payload", "enumeration: payload sizes {2^k-30, 2^k, 2^k+1 : k = 22..25} x 3 writers x 2 readers, small info section, 1 MiB source chunks; the whole frame (header + payload) is buffered in the writer before Flush; run one at a time; distinct by construction")
+	defer rec.Flush()
+	bt := evid.NewBatch()
+	shard, nshards := evid.Shard()
+	idx := 0
+	for k := 22; k <= 25; k++ {
+		for _, d := range []int{-30, 0, 1} {
+			for w := 0; w < 3; w++ {
+				idx++
+				if idx%nshards != shard {
+					continue
+				}
+				c := TTHCase{Flags: 0, Seq: int32(k), Proto: 0, Int: []TTHIntEntry{{K: 9, V: PStr{Lit: "method"}}}, Payload: 1<<k + d, Frames: 1, Writer: w, Reader: (k + w) % 2, Plan: faultio.Plan{Chunks: []int{1 << 20}, ErrAt: -1}}
+				var cv cov
+				v := checkTTHRoundTrip(c, &cv)
+				bt.Evals++
+				bt.Distinct++
+				bt.Nontrivial++
+				if v != nil {
+					failEnum(t, rec, "c06_tth_roundtrip", c, v)
+					rec.Merge(bt)
+					return
+				}
+			}
+		}
+		debug.FreeOSMemory()
+	}
+	rec.Merge(bt)
+	rec.Sample(TTHCase{Proto: 0, Int: []TTHIntEntry{{K: 9, V: PStr{Lit: "method"}}}, Payload: 1<<24 + 1, Frames: 1, Writer: 1})
+	rec.SetExhaustive()
+}
+
+// TestC06_Vocabulary: header parameter sets built from the constants the package itself names.
+func TestC06_Vocabulary(t *testing.T) {
+	rec := evid.New("C06", "c06_vocabulary", "enumeration: flags {0, streaming, out-of-order, duplex-reverse, SASL, streaming|out-of-order} x the 5 supported protocol ids x int info {none, empty map, one entry (k, v) for every key k = 0..29 (all named uint16 keys incl. FrameType, and two beyond) and v in {\"\", the four frame-type values, \"0\"}, FrameType = v together with a second named key} x string info {nil, empty, one named string key} x 3 writers alternating 2 readers; distinct by construction")
+	defer rec.Flush()
+	flags := []uint16{0, uint16(ttheader.HeaderFlagsStreaming), uint16(ttheader.HeaderFlagSupportOutOfOrder), uint16(ttheader.HeaderFlagDuplexReverse), uint16(ttheader.HeaderFlagSASL), uint16(ttheader.HeaderFlagsStreaming | ttheader.HeaderFlagSupportOutOfOrder)}
+	protos := []byte{byte(ttheader.ProtocolIDThriftBinary), byte(ttheader.ProtocolIDThriftCompactV2), byte(ttheader.ProtocolIDKitexProtobuf), byte(ttheader.ProtocolIDThriftStruct), byte(ttheader.ProtocolIDProtobufStruct)}
+	vals := []string{"", ttheader.FrameTypeMeta, ttheader.FrameTypeHeader, ttheader.FrameTypeData, ttheader.FrameTypeTrailer, "0"}
+	type intSet struct {
+		entries []TTHIntEntry
+		nonNil  bool
+	}
+	lit := func(v string) PStr {
+		if v == "" {
+			return PStr{}
+		}
+		return PStr{Lit: v}
+	}
+	var ints []intSet
+	ints = append(ints, intSet{}, intSet{nonNil: true})
+	for k := uint16(0); k < 30; k++ {
+		for _, v := range vals {
+			ints = append(ints, intSet{entries: []TTHIntEntry{{K: k, V: lit(v)}}})
+		}
+	}
+	for _, v := range vals {
+		ints = append(ints, intSet{entries: []TTHIntEntry{{K: ttheader.FrameType, V: lit(v)}, {K: ttheader.ToMethod, V: PStr{Lit: "method"}}}})
+		ints = append(ints, intSet{entries: []TTHIntEntry{{K: ttheader.FrameType, V: lit(v)}, {K: ttheader.MsgType, V: PStr{Lit: "1"}}}})
+	}
+	type job struct {
+		f  uint16
+		p  byte
+		is intSet
+		sm int
+	}
+	var jobs []job
+	for _, f := range flags {
+		for _, p := range protos {
+			for _, is := range ints {
+				for sm := 0; sm < 3; sm++ {
+					jobs = append(jobs, job{f, p, is, sm})
+				}
+			}
+		}
+	}
+	var failed bool
+	lock := make(chan struct{}, 1)
+	parallelFor(len(jobs), func(i int, b *evid.Batch) {
+		if failed {
+			return
+		}
+		j := jobs[i]
+		c := TTHCase{Flags: j.f, Seq: int32(i), Proto: j.p, Int: j.is.entries, IntNonNil: j.is.nonNil, Payload: i % 7, Frames: 1 + i%2, Writer: i % 3, Reader: (i / 3) % 2, Plan: faultio.Plan{Chunks: []int{1 + i%11}, ErrAt: -1}}
+		switch j.sm {
+		case 1:
+			c.StrNonNil = true
+		case 2:
+			c.Str = []TTHStrEntry{{K: PStr{Lit: tthKeyVocabulary[i%len(tthKeyVocabulary)]}, V: PStr{Lit: "v"}}}
+		}
+		var cv cov
+		v := checkTTHRoundTrip(c, &cv)
+		b.Evals++
+		b.Distinct++
+		if cv.nontrivial {
+			b.Nontrivial++
+		}
+		for _, l := range cv.labels {
+			b.Labels[l]++
+		}
+		if v != nil {
+			lock <- struct{}{}
+			if !failed {
+				failed = true
+				failEnum(t, rec, "c06_tth_roundtrip", c, v)
+			}
+			<-lock
+		}
+	}, rec)
+	rec.Sample(TTHCase{Flags: 2, Proto: 0x11, Int: []TTHIntEntry{{K: ttheader.FrameType, V: PStr{Lit: "3"}}}, Payload: 3, Frames: 1})
 	rec.SetExhaustive()
 }
 
